@@ -281,6 +281,11 @@ def c06_case(case):
                         elif tool == "semgrep": pe["ruleId"] = "foreign.rule.id"
                         else: pe["title"] = "foreign.rule.id"
                         placed.append((kind, pe))
+            # tools do not promise an order: ascending, descending or shuffled entries must give the same outcome
+            if case.get("order") == "desc":
+                placed.reverse()
+            elif case.get("order") == "shuffle":
+                rng.shuffle(placed)
             if case.get("split") and len(placed) >= 2 and tool in ("sonar", "defectdojo"):   # two SARIF files of one tool are refused by the CLI
                 # the same findings handed over in two result files (interleaved), as several exports of one tool would be
                 parts = [placed[0::2], placed[1::2]]
@@ -326,11 +331,20 @@ def search(ctx):
         for it in items:
             if it["codemod"] not in seen:
                 seen.add(it["codemod"]); pick.append(it)
-        items = pick[:10]
+        # every tool format takes part in every run (the formats differ in how findings are keyed and merged)
+        by_tool = {}
+        for it in pick:
+            by_tool.setdefault(it["tool"], []).append(it)
+        items = by_tool.get("sonar", [])[:4] + by_tool.get("defectdojo", [])[:2] + by_tool.get("semgrep", [])[:3] + by_tool.get("codeql", [])[:1]
     cases = []
-    for it in items:
+    for k, it in enumerate(items):
         for n, indent in ([(3, 0), (2, 4)] if ctx.thorough else [(rng.choice([2, 3]), rng.choice([0, 4]))]):
-            cases.append({"item": it, "n": n, "indent": indent, "seed": rng.randint(0, 10**9), "decoys": True, "split": rng.random() < 0.5})
+            order = ["asc", "desc", "shuffle"][k % 3]
+            multi = it["tool"] in ("sonar", "defectdojo")
+            cases.append({"item": it, "n": n, "indent": indent, "seed": rng.randint(0, 10**9), "decoys": True, "split": multi and k % 2 == 0, "order": order})
+            if multi and not ctx.thorough:
+                # the same findings once more, the other way round: in one file / over two files, another order
+                cases.append({"item": it, "n": n, "indent": indent, "seed": rng.randint(0, 10**9), "decoys": True, "split": k % 2 == 1, "order": ["desc", "shuffle", "asc"][k % 3]})
     used = set()
     for c, r in zip(cases, impl.pool_map(c06_case, cases)):
         if r[0] != "ok":
